@@ -248,6 +248,21 @@ func runC08(c *Ctx) {
 			}
 			c.Check(good, "C08.1", FuncName(ra.read), "copy-accounts-bytes", call.Pos(),
 				"the cursor update after copying envelope bytes accounts exactly for the bytes copied", why)
+			// ... and the bytes copied are the PENDING ones: the slice of the envelope array starts at
+			// len(env) - cursor (seed C01g copied from the start again when a partial hand-out resumed)
+			okSrc := false
+			if sl, isSl := call.Common().Args[1].(*ssa.Slice); isSl && sl.Low != nil {
+				if bo, isBo := sl.Low.(*ssa.BinOp); isBo && bo.Op == token.SUB && isCellLoad(bo.Y, ra.cursorF) {
+					if k, isK := ConstInt(bo.X); isK {
+						if arr, isArr := ra.envF.Type().Underlying().(*types.Array); isArr && arr.Len() == k {
+							okSrc = true
+						}
+					}
+				}
+			}
+			c.Check(okSrc, "C08.1", FuncName(ra.read), "copy-starts-at-pending-bytes", call.Pos(),
+				"the envelope bytes handed out start at len(envelope) - cursor, i.e. where the previous hand-out stopped",
+				"envelope bytes are copied from an offset that is not len(envelope) - cursor: when the backend reads the 5-byte envelope in more than two pieces (or the cursor is not at its initial value) bytes already handed out are repeated - the announced length is wrong and the stream is mis-framed")
 			// ... and the count handed back to the caller includes exactly those bytes: it derives
 			// from the cursor (as loaded before the reset), len(data) or copy's own result - not
 			// from a constant such as the envelope's full length
